@@ -105,7 +105,7 @@ CFG = {
         "C10_datum_frame", "C10_datum_never_written", "C10_datum_pure", "C10_datum_history", "C10_pure_with_datums", "C10_step_datums_frame", "C10_datum_panic_is_panic",
         "tie_transform3", "tie_closure", "tie_checkNotWGS", "tie_TransformConsts", "tie_Axis_cases",
         "tie_geom_Point", "tie_geom_MultiPoint", "tie_geom_LineString", "tie_geom_MultiLineString", "tie_geom_MultiPolygon",
-        "tie_geom_GeometryCollection", "tie_geom_Bounds", "tie_geom_nil", "tie_geom_Polygon", "tie_geom_methods", "tie_DatumSig", "tie_AxisShape",
+        "tie_geom_GeometryCollection", "tie_geom_Bounds", "tie_geom_nil", "tie_geom_Polygon", "tie_geom_methods", "tie_geom_program", "tie_DatumSig", "tie_AxisShape",
         "C10_mem_refines", "C10_mem_refines_flat", "C10_mem_refines_nil", "C10_mem_vertices", "C10_mem_input_kept",
     ]],
     "trusted_base": [
@@ -113,7 +113,7 @@ CFG = {
         "Mem.lean (memory model of the eight Transform methods behind C10_input_unchanged) refines the functional model GeomTransform.lean by theorem C10_mem_refines (all types, nesting, layouts); additionally, on every gt line the judge lays the input out in a Mem as the harness does (separate arrays / windows of one buffer / prefix re-slices), runs Mem.transformTop and compares the decoded result with the functional model (hence with the implementation); the real slices are compared before/after/after scribbling",
         "Ctors.lean (constructors' writes): write SETS, VALUES and CONDITIONS are re-extracted from the Go source by go/ast on every run (GenWrites.lean, GenBodies.lean) and proved equal to the model (Ties/*.lean: tie_<Ctor> by decide, tie_body_<Ctor> for every SR and float semantics); trusted: the extractor's slicing rule (harness/cmd/c10/astwrites/body.go) and the naming of Go literals / math.* functions as uninterpreted POps operations (CtorIR.lean); also covered at run time by the state dumps (every SR = as parsed or after one constructor run) and the wd records",
         "Datum.lean (datumTransform on a heap of *datum objects, abstract callees): since phase 4 the WHOLE body of datumTransform is re-translated from the Go source on every run (astwrites mode datumbody -> GenDatumBody.lean, little language DatumIR.lean: pointer parameters into the shared heap or re-pointed to a local copy, saved locals, the deferred function run on every way out incl. a callee's panic) and proved equal to the hand model datumTransformM — heap left and answer — for every heap, aliasing, point and callees (tie_DatumBody, tie_DatumSig); the save/defer-restore shape tie (GenDatum.lean, tie_Datum) and the callees' write-freedom (tie_Path) stay; trusted: the translator astwrites/datumbody.go and the naming of the two float constants, the four callees and the error text as DOps fields; at run time the reflection dumps include the unexported datum",
-        "GeomTransform.lean (the eight Transform methods): since phase 4 the WHOLE body of every method is re-translated from /repo/transform.go on every run (astwrites mode geom -> GenGeom.lean, little language GeomIR.lean: real arrays made by make and written at bounds-checked indices, range with block scoping, one err cell, unknown values after a failing call, type assertions; a call x.Transform(t) means the model's dispatch) and proved equal to the model for every receiver, transformer or nil (tie_geom_<Type>, tie_geom_nil, tie_geom_methods, tie_Geom); trusted: the translator astwrites/geom.go and that the model is THE solution of the extracted recursive equations (the methods terminate by structural descent)",
+        "GeomTransform.lean (the eight Transform methods): since phase 4 the WHOLE body of every method is re-translated from /repo/transform.go on every run (astwrites mode geom -> GenGeom.lean, little language GeomIR.lean: real arrays made by make and written at bounds-checked indices, range with block scoping, one err cell, unknown values after a failing call, type assertions; a call x.Transform(t) means the model's dispatch) and proved equal to the model for every receiver, transformer or nil (tie_geom_<Type>, tie_geom_nil, tie_geom_methods, tie_Geom); the per-method ties hold for ANY meaning of the calls that agrees with the model on the receiver's members, and tie_geom_program proves that the eight extracted methods calling EACH OTHER (fuel = nesting depth + 1; no reference to the model inside the bodies) compute exactly the model's transform for every transformer or nil and every geometry without nil members; trusted: the translator astwrites/geom.go",
         "Transformer.lean's stepNoHop/body (= transform3), step (= the closure returned by NewTransform) and notWGS (= checkNotWGS) are no longer only hand-modelled: the WHOLE bodies are re-translated from the Go source statement by statement on every run (astwrites mode transform -> GenTransform.lean, little language TransformIR.lean with Go's semantics for the point slice, err, shadowed/captured *SR variables, bound function values) and proved equal to the model for every heap, Core and float semantics (tie_transform3, tie_closure, tie_checkNotWGS, composed in tie_Transform; constants in tie_TransformConsts); trusted there: the translator harness/cmd/c10/astwrites/transform.go (one syntactic form per IR constructor, everything else `.other` = stuck) and the interpreter's reading of the abstract callees (Transformers() = Core.init on the cell, forward/inverse evaluated on the cell's record at call time, datumTransform = Core.dt, adjust_axis = the model's adjustAxis, Parse(\"WGS84\") = the registry cell, one `err` cell per body)",
         "adjust_axis: since phase 4 its WHOLE body (loop header, continue guard, the if / else-if chain picking v and t, the switch on crs.Axis[i] with cases and default, the final return) is re-translated from the Go source on every run (astwrites mode axisloop -> GenAxisLoop.lean, little language AxisIR.lean) and proved equal to the model's adjustAxis for every axis string, point and float semantics (tie_AxisLoop; nothing else in the function: tie_AxisShape); the older ties stay (case table read as four actions: tie_Axis_cases; source texts: tie_Axis); trusted: the translator astwrites/axisloop.go (a trailing `break` of a case is dropped; the default case must be `err := fmt.Errorf(…); return nil, err`)",
         "model lean/GeomV/C10/{GeomTransform,Transformer}.lean is tied to /repo/transform.go and /repo/proj/{transform,adjust_axis}.go by the correspondence run on every check: "
